@@ -101,6 +101,16 @@ func extraC19(c *Ctx, r *Report) {
 						}
 					}
 				}
+				// or the builtin: max(computed, 0)
+				if bc, ok := cc.Args[2].(*ssa.Call); ok {
+					if bi, ok := bc.Call.Value.(*ssa.Builtin); ok && bi.Name() == "max" {
+						for _, a := range bc.Call.Args {
+							if k, ok := constInt(a); ok && k == 0 {
+								clamp = true
+							}
+						}
+					}
+				}
 			}
 			if ci.Pkg == "sync/atomic" && strings.HasPrefix(ci.Name, "Add") && isField(cc.Args[0], "internal/adapter/stats", "endpointData", "activeConnections") {
 				// an Add is fine only under delta > 0
